@@ -4,7 +4,8 @@ import json, os, shutil, sys
 c, k, needs, caught = sys.argv[1:5]
 rnd = int(sys.argv[5]) if len(sys.argv) > 5 else 1
 src = f"/tmp/seed{'' if rnd == 1 else rnd}/{c}_out/{k}"
-dst = f"/verif/seeded/{c}-{int(k) + 2 * (rnd - 1)}"
+idx = int(k) + 2 * (rnd - 1) if rnd <= 3 else 6 + (rnd - 3)   # rounds 4, 5, ...: one change each
+dst = f"/verif/seeded/{c}-{idx}"
 os.makedirs(dst, exist_ok=True)
 for f in ("patch.diff", "demo.py", "notes.md"):
     if os.path.exists(os.path.join(src, f)):
